@@ -220,7 +220,9 @@ def do_replay(mod, pid, path):
     units = {u.name: u for u in mod.units("thorough")}
     units.update({u.name: u for u in mod.units(tier)})
     u = units[v["unit"]]
-    status, detail = u.replay(v["label"], unjson_values(v["values"]))
+    vals = unjson_values(v["values"])
+    variant = vals.pop("_variant", None)
+    status, detail = u.replay(v["label"], vals, str(variant)) if variant else u.replay(v["label"], vals)
     print(f"replay property={pid} unit={u.name} check={v['label']}: {status}\n  {detail}")
     return 1 if status.startswith("reproduced") else 0
 
